@@ -85,7 +85,9 @@ def build_history(rng, reqs, n, flavour):
              rt.obj_line(0, align=aligns[0], fill=fill0, seed=1),
              rt.obj_line(1, align=aligns[1], fill="n" if flavour == "msan" else "f"),
              rt.obj_line(2, align=aligns[2], fill="n" if flavour == "msan" else "r", seed=2),
-             "raobj 3 -1 0"]
+             # the crypt_ra pair starts from NULL, or from a caller-supplied block of sufficient size with arbitrary contents
+             rng.choice(["raobj 3 -1 0", "raobj 3 %d %d" % (rt.CD_SIZE, rt.CD_SIZE), "raobj 3 40000 40000"])
+             if flavour != "msan" else "raobj 3 -1 0"]
     lines, meta = [], []
     last_idx = None
     gens = [m for m in facts.GENSALT_METHODS]
